@@ -288,7 +288,7 @@ type Local struct {
 	outcomes   map[string]int64
 }
 
-func (f *Family) Local() *Local { return &Local{f: f, outcomes: map[string]int64{}} }
+func (f *Family) Local() *Local   { return &Local{f: f, outcomes: map[string]int64{}} }
 func (l *Local) Outcome(o string) { l.outcomes[o]++ }
 func (l *Local) Flush() {
 	l.f.mu.Lock()
